@@ -88,18 +88,18 @@ def check(ctx):
     cnt = mod.func("count")
     cs = [c for c in calls(cnt, "reduction")]
     cc = mod.func("_chunk_count")
-    ok = len(cs) == 1 and unparse(cs[0].args[1]) == "_chunk_count" and unparse(cs[0].args[2]) == "chunk.sum" and (all(Pat("np.ma.count(x, axis=axis, keepdims=keepdims)").match(r.value) is not None for r in returns(cc)) and bool(returns(cc)))
+    ok = len(cs) == 1 and eqv(cs[0].args[1], "_chunk_count") and eqv(cs[0].args[2], "chunk.sum") and (all(Pat("np.ma.count(x, axis=axis, keepdims=keepdims)").match(r.value) is not None for r in returns(cc)) and bool(returns(cc)))
     ctx.ob("ALG.count", cnt, "ma.count = reduction(np.ma.count per block, chunk.sum)", ok, "" if ok else "per-block counts of unmasked elements must be summed")
     # ---------------- masked results of std/nanstd: np.ma.masked is a 0-d constant
     red = ctx.model.module("dask/array/reductions.py")
     sq = red.func("_sqrt")
-    rm = [r for r in returns(sq) if unparse(r.value) == "np.ma.masked"]
+    rm = [r for r in returns(sq) if eqv(r.value, "np.ma.masked")]
     ok = len(rm) == 1
     if ok:
         facts = {(unparse(e), pol) for e, pol in cfg_of(sq).facts(rm[0])}
         ok = ("a.shape", False) in facts and ("a.mask.all()", True) in facts and ("isinstance(a, np.ma.masked_array)", True) in facts
     ctx.ob("SHAPE.masked-scalar", sq, "_sqrt returns the 0-d constant np.ma.masked only for a 0-d, fully masked input", ok, "" if ok else "a fully masked block with dimensions is replaced by the 0-d constant: the block loses its shape (wrong result shape or IndexError when blocks are assembled)")
-    ok = any(unparse(r.value) == "np.sqrt(a)" for r in returns(sq))
+    ok = any(eqv(r.value, "np.sqrt(a)") for r in returns(sq))
     ctx.ob("SHAPE.masked-scalar.else", sq, "everything else goes through np.sqrt(a)", ok)
     # ---------------- _wrap_masked aligns `value` with `a` from the trailing axis: both index tuples are reversed
     wm = mod.func("_wrap_masked")
